@@ -796,8 +796,9 @@ func runCase(c *Case, l *alist, inlineScript bool) (res result) {
 		case len(got) > c.MaxLen:
 			res.class = "overlong"
 			// attribution: the first (verb letter of the format, argument)
-			// pair that on its own already exceeds the limit
+			// pair that appends to an already full buffer without error
 			sig := "limit/overlong/unattributed"
+			pad := strings.Repeat("_", c.MaxLen)
 		find:
 			for _, v := range c.Format {
 				if !(v >= 'a' && v <= 'z' || v >= 'A' && v <= 'Z') {
@@ -805,7 +806,7 @@ func runCase(c *Case, l *alist, inlineScript bool) (res result) {
 				}
 				for _, a := range l.args {
 					res.calls++
-					if g, e, _ := tengoFormat("%"+string(v), []tengo.Object{a.obj}); e == nil && len(g) > c.MaxLen {
+					if g, e, _ := tengoFormat(pad+"%"+string(v), []tengo.Object{a.obj}); e == nil && len(g) > c.MaxLen {
 						sig = "limit/overlong/verb=" + verbName(v)
 						break find
 					}
